@@ -105,7 +105,9 @@ func warmHistory() {
 		log.VerifReset(keepBuiltinTags, keepAllHandles)
 		log.Stdout = &bytes.Buffer{}
 		for _, fast := range []string{"false", "true"} {
+			// (one appender with every layout attribute configured away from its default)
 			if err := log.Refresh(map[string]string{"appender.hw.type": "Rec", "logger.root.type": "Logger", "logger.root.appenderRef.ref": "hw",
+				"appender.hc.type": "Console", "appender.hc.layout.type": "TextLayout", "appender.hc.layout.fileLineLength": "10",
 				"appender.hx.type": "Rec", "logger.hist.type": "AsyncLogger", "logger.hist.bufferSize": "100", "logger.hist.tags": "_c01_*", "logger.hist.appenderRef.ref": "hx",
 				"enableCaller": "true", "fastCaller": fast}); err != nil {
 				return
